@@ -106,7 +106,9 @@ impl ResourceId {
 impl ResourceIdGenerator {
     /// Verification hook: a generator whose counter starts at `last`.
     pub fn verif_with_last(adapter_id: u8, resource_type: ResourceType, last: usize) -> Self {
-        Self { last: AtomicUsize::new(last), adapter_id, resource_type }
+        let generator = Self::new(adapter_id, resource_type);
+        generator.last.store(last as _, Ordering::SeqCst);
+        generator
     }
 }
 
